@@ -70,6 +70,13 @@ func genC10(prop string, r *sim.Rng, i int) *c10Case {
 	if prop == "C11" && r.Chance(1, 4) {
 		c.WriteErr = 1 + r.Intn(5)
 	}
+	if prop == "C11" && i%11 == 10 {
+		// the system transport itself: a login it refuses before ssh is started (key with a
+		// passphrase), and one whose ssh exits at once; whatever it logs must not hold a credential
+		c.Kind = "system"
+		c.OnAuth = r.Intn(2) // 0: key + passphrase (refused), 1: password only, ssh binary exits at once
+		return c
+	}
 	if prop == "C11" && i%3 == 2 {
 		c.Kind = "escalate"
 		c.Secret = r.Pick(c10Secrets)
@@ -226,6 +233,10 @@ func runC10Case(id string, c *c10Case) {
 	li, _ := logging.NewInstance(logging.WithLevel(c.LogLevel), logging.WithLogger(sink.log))
 	if c.Kind == "escalate" {
 		runC11Escalate(cs, c, sink, li)
+		return
+	}
+	if c.Kind == "system" {
+		runC11System(cs, c, sink, li)
 		return
 	}
 	dev := &sim.LoginDevice{Turns: c.Turns}
